@@ -17,6 +17,12 @@ D1 (round 3) json sinks of the trace path are not stricter than the sanitiser's 
    contained; driver callbacks raise nothing of their own,
 D3 driver calls are gated on the trace being present.
 Run state of execute and live parameters of the helpers are found by role / declared type, not by spelling.
+Round 4: anchors by role - the SER builder is whatever execute() hands to on_node_event (method or module-level
+function; sinks followed into helpers that are not inlined, the value they receive traced back to the `preprocessor`
+entry of the processor metadata across parameters); trace-only helpers of the orchestrator module are also found
+through the call graph from the trace-only blocks; the volatile timing producers through resolved calls; what a
+function returns is followed through closures / lambdas of a local dispatch table; a canonical node may be appended
+as an expression (`{**node, ..}`, `dict(node, k=v)`, `node | {..}`) or come out of a tuple-returning helper.
 """
 from __future__ import annotations
 
@@ -139,6 +145,39 @@ def run(repo: Repo, R: Report) -> None:
         f = repo.maybe_func(ORCH, O + h)
         if f is not None:
             helper_fns.append((ORCH, O + h, f))
+    # ... and whatever else of this module the trace-only blocks call (a helper that became a module-level function,
+    # a piece split off a summary method): found through the call graph, not by name
+    # only code that runs with a trace attached and not otherwise: every call site in the module lies in a trace-only
+    # block of execute or in another such function
+    omod_ = repo.module(ORCH)
+    in_trace_block = {id(x) for blk in trace_blocks for st in blk.body for x in ast.walk(st)}
+    cand: Dict[int, ast.AST] = {}
+    todo_fns = [t for blk in trace_blocks for st in blk.body for c in calls_in(st, include_nested=True) for m, t in repo.resolve_call(omod_, c) if m.rel == ORCH]
+    while todo_fns:
+        t = todo_fns.pop()
+        if id(t) in cand or not isinstance(t, FuncNode) or t is ex or t.name == "__init__" or any(isinstance(a, FuncNode) for a in ancestors(t)):
+            continue
+        cand[id(t)] = t
+        todo_fns += [t2 for c in calls_in(t, include_nested=True) for m, t2 in repo.resolve_call(omod_, c) if m.rel == ORCH]
+    all_sites: Dict[int, List[Tuple[ast.AST, ast.Call]]] = {}
+    for _m, _qn, f in repo.all_functions():
+        if _m.rel != ORCH or any(isinstance(a, FuncNode) for a in ancestors(f)):
+            continue
+        for c in calls_in(f, include_nested=True):
+            for m, t in repo.resolve_call(omod_, c):
+                if id(t) in cand:
+                    all_sites.setdefault(id(t), []).append((f, c))
+    changed = True
+    while changed:
+        changed = False
+        for k in list(cand):
+            if any(not (id(c) in in_trace_block or id(f) in cand) for f, c in all_sites.get(k, [])):
+                del cand[k]
+                changed = True
+    known = {id(f) for _r, _q, f in helper_fns}
+    for t in sorted(cand.values(), key=lambda t: t.lineno):
+        if id(t) not in known:
+            helper_fns.append((ORCH, qualname_of(t), t))
     umod = repo.module(UTILS)
     for qn, f in [(q, n) for q, n in umod.defs.items() if isinstance(n, FuncNode) and "." not in q]:
         helper_fns.append((UTILS, qn, f))
@@ -182,13 +221,9 @@ def run(repo: Repo, R: Report) -> None:
     # ------------------------------------------------------------------ D1b serialisation sinks on SAFE data
     _json_safe_producers(repo, R)
     r_sink = R.rule("C10-D1b-sinks", "uncontained json/deepcopy/asdict sinks in SER construction are applied only to the sanitised preprocessor metadata", 2)
-    mk = repo.func(ORCH, O + "_make_ser_record")
-    for c in calls_in(mk):
-        d = call_name(c) or ""
-        if d in ("json.dumps", "json.loads", "copy.deepcopy", "asdict", "compute_node_semantic_id") and not contained(c):
-            names = {x.id for a in list(c.args) + [k.value for k in c.keywords] for x in ast.walk(a) if isinstance(x, ast.Name)} - {"json", "copy"}
-            src_ok = names <= {"pre", "prov"} or all(any("preprocessor" in ast.unparse(v) or "json." in ast.unparse(v) for v in assigned_value(mk, nm)) for nm in names)
-            R.check(src_ok, r_sink, ORCH, O + "_make_ser_record", norm(c)[:80], "an uncontained serialisation sink is applied to a value that is not the sanitised preprocessor metadata: a non-JSON configuration value makes the traced run raise", c.lineno)
+    builders = _ser_builders(repo, ex, drivers)
+    for site_rel, site_qn, site_fn, c, why in _ser_sink_sites(repo, builders):
+        R.check(not why, r_sink, site_rel, site_qn, norm(c)[:80], f"an uncontained serialisation sink is applied to a value that is not the sanitised preprocessor metadata ({why}): a non-JSON configuration value makes the traced run raise", c.lineno)
 
     # ------------------------------------------------------------------ D2 no accumulating state feeds the stream
     r_hist = R.rule("C10-D2-no-history", "orchestrator and driver keep no accumulating per-object or module-level state that the records of a later run are computed from; stable record fields derive from this call's arguments", 3)
@@ -229,9 +264,11 @@ def run(repo: Repo, R: Report) -> None:
             where = f" (`{norm(stmt_of(x))[:60]}` in {qn})"
         R.check(ok, r_hist, ORCH, "<module>", norm(st)[:80], f"module-level mutable `{nm}` is used by the orchestrator and is not a read-only literal table{where}: records can depend on earlier runs in the process", st.lineno)
     # ids of SER / pipeline_end come from this call (shared with C06-D3): _make_ser_record reads no self attribute
-    self_reads = sorted({dotted_name(x) for x in ast.walk(mk) if isinstance(x, ast.Attribute) and isinstance(x.value, ast.Name) and x.value.id == "self" and isinstance(x.ctx, ast.Load) and not isinstance(getattr(x, "_parent", None), ast.Call)} - {None})
-    self_reads = [a for a in self_reads if not any(isinstance(c.func, ast.Attribute) and dotted_name(c.func) == a for c in calls_in(mk))]
-    R.check(not self_reads, r_hist, ORCH, O + "_make_ser_record", "SER construction reads no instance state", f"SER fields are computed from persistent instance state {self_reads}", mk.lineno)
+    for b_rel, b_qn, b_fn in _ser_closure(repo, builders)[0]:
+        self_reads = sorted({dotted_name(x) for x in ast.walk(b_fn) if isinstance(x, ast.Attribute) and isinstance(x.value, ast.Name) and x.value.id == "self" and isinstance(x.ctx, ast.Load) and not (isinstance(getattr(x, "_parent", None), ast.Call) and x._parent.func is x)} - {None})
+        if b_fn.args.args and b_fn.args.args[0].arg != "self":
+            self_reads = []  # a module-level function: `self` is not the orchestrator
+        R.check(not self_reads, r_hist, b_rel, b_qn, "SER construction reads no instance state", f"SER fields are computed from persistent instance state {self_reads}", b_fn.lineno)
     _no_identity_in_stream(repo, R, ex, helper_fns, drivers)
     _no_run_carried_instance_state(repo, R)
     _no_shared_mutable_tables(repo, R)
@@ -245,6 +282,163 @@ def run(repo: Repo, R: Report) -> None:
         c04.no_mutation_of_hashed_input(repo, R)
     finally:
         R.rule_prefix = ""
+
+
+# ---------------------------------------------------------------------------------------------------------
+# D1b: the SER builder, found by role, and the serialisation sinks on its path
+# ---------------------------------------------------------------------------------------------------------
+SER_SINKS = {"json.dumps", "json.loads", "copy.deepcopy", "deepcopy", "asdict", "dataclasses.asdict", "compute_node_semantic_id"}
+_PASS_THROUGH = {"json.dumps", "json.loads", "copy.deepcopy", "deepcopy", "dict", "copy.copy"}
+PRE_KEY = "preprocessor"
+
+
+def _ser_builders(repo: Repo, ex: ast.AST, drivers: Set[str]) -> List[Tuple[str, str, ast.AST]]:
+    """The function(s) whose result execute() hands to the driver's on_node_event: whatever they are called and
+    wherever they live (method, module-level function), they are what builds the step record."""
+    omod = repo.module(ORCH)
+    out: List[Tuple[str, str, ast.AST]] = []
+    seen: Set[int] = set()
+    for c in calls_in(ex):
+        if not _orch.is_driver_call(c, drivers, "on_node_event"):
+            continue
+        for a in list(c.args) + [k.value for k in c.keywords]:
+            for form in _value_forms(ex, a):
+                if not isinstance(form, ast.Call):
+                    continue
+                for m, f in repo.resolve_call(omod, form):
+                    if isinstance(f, FuncNode) and f.name != "__init__" and id(f) not in seen:
+                        seen.add(id(f))
+                        out.append((m.rel, qualname_of(f), f))
+    if not out:
+        raise AnalysisError("execute(): the function that builds the record handed to on_node_event was not recognised")
+    return out
+
+
+def _ser_closure(repo: Repo, builders):
+    """Normal forms of the SER builders and of the same-module functions they call that the normaliser did not
+    inline (public helpers, helpers with several returns), with the call sites through which each is entered."""
+    fns: List[Tuple[str, str, ast.AST]] = []
+    sites: Dict[int, List[Tuple[ast.AST, ast.Call]]] = {}
+    nf_of: Dict[int, ast.AST] = {}
+    todo = [(rel, qn, f, 0) for rel, qn, f in builders]
+    while todo:
+        rel, qn, raw, depth = todo.pop(0)
+        if id(raw) in nf_of:
+            continue
+        nf = nfunc(repo, rel, qn)
+        nf_of[id(raw)] = nf
+        fns.append((rel, qn, nf))
+        if depth >= 3:
+            continue
+        mod = repo.module(rel)
+        for c in calls_in(nf, include_nested=True):
+            for m, t in repo.resolve_call(mod, c):
+                if m.rel == rel and isinstance(t, ast.FunctionDef) and t.name != "__init__" and enclosing_function_is_module_or_class(t):
+                    sites.setdefault(id(t), []).append((nf, c))
+                    todo.append((rel, qualname_of(t), t, depth + 1))
+    return fns, {id(nf_of[k]): v for k, v in sites.items() if k in nf_of}, {id(nf) for _r, _q, nf in fns[:len(builders)]}
+
+
+def enclosing_function_is_module_or_class(f: ast.AST) -> bool:
+    return not any(isinstance(a, FuncNode) for a in ancestors(f))
+
+
+def _bind_call(f: ast.AST, c: ast.Call) -> Optional[Dict[str, ast.AST]]:
+    """parameter name -> argument expression of the call *c* to *f* (None when it cannot be told)."""
+    if any(isinstance(a, ast.Starred) for a in c.args) or any(k.arg is None for k in c.keywords) or f.args.vararg or f.args.kwarg:
+        return None
+    pos = [a.arg for a in f.args.posonlyargs + f.args.args]
+    if pos and pos[0] in ("self", "cls") and isinstance(c.func, ast.Attribute):
+        pos = pos[1:]
+    if len(c.args) > len(pos):
+        return None
+    out: Dict[str, ast.AST] = dict(zip(pos, c.args))
+    for k in c.keywords:
+        out[k.arg] = k.value
+    allp = f.args.posonlyargs + f.args.args
+    for a, d in list(zip(allp[len(allp) - len(f.args.defaults):], f.args.defaults)) + [(a, d) for a, d in zip(f.args.kwonlyargs, f.args.kw_defaults) if d is not None]:
+        out.setdefault(a.arg, d)
+    return out
+
+
+def _scope_chain(n: ast.AST, root: ast.AST) -> List[ast.AST]:
+    """The function scopes *n* is evaluated in, innermost first, up to *root*."""
+    out = [a for a in ancestors(n) if isinstance(a, FuncNode + (ast.Lambda,))]
+    if root in out:
+        out = out[:out.index(root) + 1]
+    elif n is not root:
+        out.append(root)
+    return out or [root]
+
+
+def _ser_sink_sites(repo: Repo, builders):
+    """(rel, qualname, function, sink call, reason) for every uncontained serialisation sink on the SER
+    construction path; reason is '' when the value it is applied to is the sanitised preprocessor metadata (read
+    by its key from the processor's metadata, possibly copied through json / dict), else says what it is."""
+    fns, sites, roots = _ser_closure(repo, builders)
+
+    def derives(fn: ast.AST, e: Optional[ast.AST], depth: int = 0) -> str:
+        if e is None or isinstance(e, ast.Constant):
+            return ""
+        if depth > 8:
+            return f"`{norm(e)[:40]}`: derivation too deep"
+        if isinstance(e, ast.IfExp):
+            return derives(fn, e.body, depth + 1) or derives(fn, e.orelse, depth + 1)
+        if isinstance(e, ast.BoolOp):
+            return next((w for w in (derives(fn, v, depth + 1) for v in e.values) if w), "")
+        if isinstance(e, ast.Subscript):
+            if isinstance(e.slice, ast.Constant) and e.slice.value == PRE_KEY:
+                return ""
+            return f"`{norm(e)[:40]}` is not the `{PRE_KEY}` entry of the processor metadata"
+        if isinstance(e, ast.Call):
+            d = call_name(e) or ""
+            if call_attr(e) == "get" and e.args and isinstance(e.args[0], ast.Constant) and e.args[0].value == PRE_KEY:
+                return next((w for w in (derives(fn, a, depth + 1) for a in e.args[1:]) if w), "")
+            if (d in _PASS_THROUGH or d.split(".")[-1] in ("deepcopy",)) and len(e.args) == 1:
+                return derives(fn, e.args[0], depth + 1)
+            if call_attr(e) == "copy" and isinstance(e.func, ast.Attribute) and not e.args:
+                return derives(fn, e.func.value, depth + 1)
+            return f"`{norm(e)[:40]}` is not derived from the sanitised preprocessor metadata"
+        if isinstance(e, ast.Name):
+            for scope in _scope_chain(e, fn):
+                vals = assigned_value(scope, e.id)
+                other = [x for x in walk_no_nested(scope) if isinstance(x, ast.Name) and x.id == e.id and isinstance(x.ctx, ast.Store)]
+                if vals or other:
+                    if len(other) > len(vals):
+                        return f"`{e.id}` is bound by something other than a plain assignment"
+                    return next((w for w in (derives(scope if not isinstance(scope, ast.Lambda) else fn, v, depth + 1) for v in vals) if w), "")
+                params = {a.arg for a in scope.args.posonlyargs + scope.args.args + scope.args.kwonlyargs}
+                if e.id in params:
+                    if id(scope) in roots or scope is not fn and not isinstance(scope, ast.Lambda) and id(scope) not in sites:
+                        return f"`{e.id}` is a parameter of the record builder (run data), not the preprocessor metadata"
+                    callers = sites.get(id(scope), [])
+                    if not callers:
+                        return f"`{e.id}`: no call site of {getattr(scope, 'name', '<lambda>')} found"
+                    for caller, call in callers:
+                        b = _bind_call(scope, call)
+                        if b is None:
+                            raise AnalysisError(f"SER construction: arguments of `{norm(call)[:60]}` cannot be bound to parameters")
+                        if e.id not in b:
+                            return f"`{e.id}` is not bound at `{norm(call)[:40]}`"
+                        cf = next((a for a in [call] + list(ancestors(call)) if isinstance(a, FuncNode) and (id(a) in sites or id(a) in roots)), caller)
+                        w = derives(cf, b[e.id], depth + 1)
+                        if w:
+                            return w
+                    return ""
+            return f"`{e.id}` is not a local of the record builder"
+        return f"`{norm(e)[:40]}` is not derived from the sanitised preprocessor metadata"
+
+    out = []
+    for rel, qn, nf in fns:
+        for c in calls_in(nf, include_nested=True):
+            d = call_name(c) or ""
+            if d not in SER_SINKS or contained(c):
+                continue
+            # the inner call of json.loads(json.dumps(x)) is decided on its own
+            args = list(c.args[:1]) or [k.value for k in c.keywords][:1]
+            why = next((w for w in (derives(nf, a) for a in args) if w), "")
+            out.append((rel, qn, nf, c, why))
+    return out
 
 
 def _callee_contains(repo: Repo, umod, name: Optional[str]) -> bool:
@@ -382,7 +576,7 @@ def _leaf_safe(fn: ast.AST, e: ast.AST, depth: int = 0) -> bool:
     if isinstance(e, ast.IfExp):
         return _leaf_safe(fn, e.body, depth) and _leaf_safe(fn, e.orelse, depth)
     if isinstance(e, ast.Name) and depth < 4:
-        vals = assigned_value(fn, e.id)
+        vals = _lookup(fn, e)
         return bool(vals) and all(_leaf_safe(fn, v, depth + 1) for v in vals)
     return False
 
@@ -392,37 +586,115 @@ def _value_forms(fn: ast.AST, e: ast.AST, depth: int = 0) -> List[ast.AST]:
     if isinstance(e, ast.IfExp):
         return _value_forms(fn, e.body, depth) + _value_forms(fn, e.orelse, depth)
     if isinstance(e, ast.Name) and depth < 4:
-        vals = assigned_value(fn, e.id)
+        vals = _lookup(fn, e)
         if vals:
             return [f for v in vals for f in _value_forms(fn, v, depth + 1)]
     return [e]
 
 
+def _lookup(fn: ast.AST, e: ast.Name) -> List[ast.AST]:
+    """What the name *e* can stand for where it is written: the plain assignments of the innermost enclosing
+    function that binds it (a closure reads the locals of the function it is defined in), else a module-level
+    assignment; nothing for a parameter."""
+    for a in ancestors(e):
+        if isinstance(a, FuncNode + (ast.Lambda,)):
+            if not isinstance(a, ast.Lambda):
+                vals = assigned_value(a, e.id)
+                if vals:
+                    return vals
+            if e.id in {x.arg for x in a.args.posonlyargs + a.args.args + a.args.kwonlyargs}:
+                return []
+        elif isinstance(a, ast.Module):
+            return [st.value for st in a.body if isinstance(st, (ast.Assign, ast.AnnAssign)) and st.value is not None and any(isinstance(t, ast.Name) and t.id == e.id for t in (st.targets if isinstance(st, ast.Assign) else [st.target]))]
+    return assigned_value(fn, e.id)
+
+
+def _callee_defs(repo: Repo, mod, fn: ast.AST, f: ast.AST, depth: int = 0) -> Optional[List[ast.AST]]:
+    """The local callables (nested defs, lambdas, functions of the same module) the expression *f* in call position
+    can stand for - directly, through a local, or picked from a local dispatch table (`T.get(k[, d])`, `T[k]` with T a
+    dict display); None when that cannot be told."""
+    if depth > 5:
+        return None
+    if isinstance(f, ast.Lambda):
+        return [f]
+    if isinstance(f, ast.Constant) and f.value is None:
+        return []  # `None` is never called on a path that returns
+    if isinstance(f, ast.IfExp):
+        parts = [_callee_defs(repo, mod, fn, x, depth + 1) for x in (f.body, f.orelse)]
+        return None if any(x is None for x in parts) else parts[0] + parts[1]
+    if isinstance(f, ast.Name):
+        r = repo.resolve_name(mod, f, f)
+        if r is not None and r[0] is mod and isinstance(r[1], ast.FunctionDef):
+            return [r[1]]
+        vals = _lookup(fn, f)
+        if not vals:
+            return None
+        parts = [_callee_defs(repo, mod, fn, v, depth + 1) for v in vals]
+        return None if any(x is None for x in parts) else [d for x in parts for d in x]
+    table: Optional[ast.AST] = None
+    extra: List[ast.AST] = []
+    if isinstance(f, ast.Call) and call_attr(f) == "get" and isinstance(f.func, ast.Attribute) and 1 <= len(f.args) <= 2 and not f.keywords:
+        table, extra = f.func.value, list(f.args[1:])
+    elif isinstance(f, ast.Subscript):
+        table = f.value
+    if table is None:
+        return None
+    out: List[ast.AST] = []
+    for form in _value_forms(fn, table):
+        if not isinstance(form, ast.Dict) or any(k is None for k in form.keys):
+            return None
+        extra = extra + list(form.values)
+    for v in extra:
+        d = _callee_defs(repo, mod, fn, v, depth + 1)
+        if d is None:
+            return None
+        out.extend(d)
+    return out
+
+
+def _returned_forms(repo: Repo, mod, f: ast.AST, depth: int = 0, seen: Tuple[int, ...] = ()) -> List[Tuple[ast.AST, ast.AST, ast.AST]]:
+    """(function, return statement, value form) for everything *f* can return, looking through locals, conditional
+    expressions and calls of local callables (closures of a dispatch table, helpers the normaliser left alone)."""
+    out: List[Tuple[ast.AST, ast.AST, ast.AST]] = []
+    if isinstance(f, ast.Lambda):
+        rets: List[Tuple[ast.AST, ast.AST]] = [(f, f.body)]
+    else:
+        rets = [(n, n.value) for n in walk_no_nested(f) if isinstance(n, ast.Return) and n.value is not None]
+    for ret, value in rets:
+        for form in _value_forms(f, value):
+            callees = _callee_defs(repo, mod, f, form.func) if isinstance(form, ast.Call) and depth < 4 else None
+            if callees and not any(id(c) in seen or c is f for c in callees):
+                for c in callees:
+                    out.extend(_returned_forms(repo, mod, c, depth + 1, seen + (id(f),)))
+            else:
+                out.append((f, ret, form))
+    return out
+
+
 def _json_safe_producers(repo: Repo, R: Report) -> None:
     r = R.rule("C10-D1b-json-safe-producers", "what the traced run serialises outside a containing try (preprocessor metadata in SER construction, the canonical spec handed to pipeline_start / compute_pipeline_id) is JSON-safe by construction: every leaf of a sweep variable's domain signature passes a sanitiser, and a canonical node is appended only after it has been json-dumped (a failure there fails traced and untraced runs alike, before execute)", 6)
     vds = nfunc(repo, SEM, "variable_domain_signature", keep=tuple(SANITISERS))
-    param = vds.args.args[0].arg if vds.args.args else ""
     n_leaves = 0
-    for ret in [n for n in walk_no_nested(vds) if isinstance(n, ast.Return) and n.value is not None]:
-        for form in _value_forms(vds, ret.value):
-            if not isinstance(form, ast.Dict):
-                n_leaves += 1
-                R.check(_leaf_safe(vds, form), r, SEM, "variable_domain_signature", f"returned: {norm(form)[:70]}", "the domain signature is not built from sanitised leaves: a raw configuration value can reach json.dumps in SER construction (the traced run raises, the untraced run does not)", getattr(form, "lineno", vds.lineno))
+    for scope, ret, form in _returned_forms(repo, repo.module(SEM), vds):
+        where = "variable_domain_signature" if scope is vds else f"variable_domain_signature.{getattr(scope, 'name', '<lambda>')}"
+        if not isinstance(form, ast.Dict):
+            n_leaves += 1
+            R.check(_leaf_safe(scope, form), r, SEM, where, f"returned: {norm(form)[:70]}", "the domain signature is not built from sanitised leaves: a raw configuration value can reach json.dumps in SER construction (the traced run raises, the untraced run does not)", getattr(form, "lineno", vds.lineno))
+            continue
+        items = list(zip(form.keys, form.values))
+        # later `sig[key] = value` stores into the returned local
+        if isinstance(ret, ast.Return) and isinstance(ret.value, ast.Name):
+            for n in walk_no_nested(scope):
+                if isinstance(n, ast.Assign) and len(n.targets) == 1 and isinstance(n.targets[0], ast.Subscript) and dotted_name(n.targets[0].value) == ret.value.id:
+                    items.append((n.targets[0].slice, n.value))
+        for k, v in items:
+            kname = k.value if isinstance(k, ast.Constant) else "?"
+            # getattr(spec, "key", None) of a from_context variable: the key is a mapping key of the YAML (str)
+            if isinstance(v, ast.Call) and call_attr(v) == "getattr" and kname == "key":
                 continue
-            items = list(zip(form.keys, form.values))
-            # later `sig[key] = value` stores into the returned local
-            if isinstance(ret.value, ast.Name):
-                for n in walk_no_nested(vds):
-                    if isinstance(n, ast.Assign) and len(n.targets) == 1 and isinstance(n.targets[0], ast.Subscript) and dotted_name(n.targets[0].value) == ret.value.id:
-                        items.append((n.targets[0].slice, n.value))
-            for k, v in items:
-                kname = k.value if isinstance(k, ast.Constant) else "?"
-                # getattr(spec, "key", None) of a from_context variable: the key is a mapping key of the YAML (str)
-                if isinstance(v, ast.Call) and call_attr(v) == "getattr" and kname == "key":
-                    continue
-                n_leaves += 1
-                R.check(k is not None and _leaf_safe(vds, v), r, SEM, "variable_domain_signature", f"{kname!r}: {norm(v)[:70]}",
-                        "a raw configuration value (e.g. a YAML date in a sweep sequence) is embedded unsanitised in metadata that is hashed/serialised uncontained in SER construction and attached to pipeline_start: json.dumps raises TypeError in the traced run only", getattr(v, "lineno", vds.lineno))
+            n_leaves += 1
+            R.check(k is not None and _leaf_safe(scope, v), r, SEM, where, f"{kname!r}: {norm(v)[:70]}",
+                    "a raw configuration value (e.g. a YAML date in a sweep sequence) is embedded unsanitised in metadata that is hashed/serialised uncontained in SER construction and attached to pipeline_start: json.dumps raises TypeError in the traced run only", getattr(v, "lineno", vds.lineno))
     if n_leaves == 0:
         raise AnalysisError("variable_domain_signature: no returned value recognised")
 
@@ -442,51 +714,131 @@ def _json_safe_producers(repo: Repo, R: Report) -> None:
     if not node_lists:
         raise AnalysisError("build_canonical_spec: the returned canonical mapping / its `nodes` list was not recognised")
     g = CFG(bcs)
-    grow = [c for c in calls_in(bcs) if isinstance(c.func, ast.Attribute) and c.func.attr in GROWERS and isinstance(c.func.value, ast.Name) and c.func.value.id in node_lists]
-    grow_stmts = [n for n in walk_no_nested(bcs) if isinstance(n, ast.AugAssign) and isinstance(n.target, ast.Name) and n.target.id in node_lists]
-    if not grow and not grow_stmts:
+    grow: List[Tuple[ast.AST, Optional[List[ast.AST]]]] = []  # (growing statement / call, elements added or None when unknown)
+    for c in calls_in(bcs):
+        if isinstance(c.func, ast.Attribute) and c.func.attr in GROWERS and isinstance(c.func.value, ast.Name) and c.func.value.id in node_lists:
+            if c.func.attr == "append" and len(c.args) == 1 and not c.keywords:
+                grow.append((c, [c.args[0]]))
+            elif c.func.attr == "insert" and len(c.args) == 2 and not c.keywords:
+                grow.append((c, [c.args[1]]))
+            elif c.func.attr == "extend" and len(c.args) == 1 and isinstance(c.args[0], (ast.List, ast.Tuple)) and not any(isinstance(x, ast.Starred) for x in c.args[0].elts):
+                grow.append((c, list(c.args[0].elts)))
+            else:
+                grow.append((c, None))
+    for n in walk_no_nested(bcs):
+        if isinstance(n, ast.AugAssign) and isinstance(n.target, ast.Name) and n.target.id in node_lists:
+            lit = isinstance(n.op, ast.Add) and isinstance(n.value, (ast.List, ast.Tuple)) and not any(isinstance(x, ast.Starred) for x in n.value.elts)
+            grow.append((n, list(n.value.elts) if lit else None))
+    if not grow:
         raise AnalysisError("build_canonical_spec: no statement adds to the canonical node list")
-    for st in grow_stmts:
-        R.violation(r, GRAPH, "build_canonical_spec", norm(st)[:90], "canonical nodes are added in a way the analysis cannot relate to a preceding json.dumps of the node", st.lineno)
-    for c in grow:
-        if c.func.attr != "append" or len(c.args) != 1 or not isinstance(c.args[0], ast.Name):
+
+    def parts(e: ast.AST, depth: int = 0) -> Optional[Tuple[Set[str], List[ast.AST]]]:
+        """(names of the objects the element is, or is a shallow copy of; values put next to the copied entries)."""
+        if depth > 6:
+            return None
+        if isinstance(e, ast.Name):
+            names, extras = {e.id}, []
+            vals = _lookup(bcs, e) + _unpacked_values(bcs, e)
+            for v in vals:
+                if isinstance(v, ast.Constant):
+                    continue
+                sub = parts(v, depth + 1)
+                if sub is None:
+                    # built by something else (a helper call, a literal): the name itself is the object to be dumped
+                    continue
+                names |= sub[0]
+                extras += sub[1]
+            return names, extras
+        if isinstance(e, ast.Dict):
+            names, extras = set(), []
+            for k, v in zip(e.keys, e.values):
+                if k is None:
+                    sub = parts(v, depth + 1)
+                    if sub is None:
+                        return None
+                    names |= sub[0]
+                    extras += sub[1]
+                else:
+                    extras.append(v)
+            return (names, extras) if names else None
+        if isinstance(e, ast.BinOp) and isinstance(e.op, ast.BitOr):
+            l, r_ = parts(e.left, depth + 1), parts(e.right, depth + 1)
+            if l is None and r_ is None:
+                return None
+            side = lambda x, raw: x if x is not None else (set(), list(raw.values) if isinstance(raw, ast.Dict) and all(k is not None for k in raw.keys) else [raw])
+            (ln, le), (rn, re_) = side(l, e.left), side(r_, e.right)
+            return ln | rn, le + re_
+        if isinstance(e, ast.Call):
+            a_ = call_attr(e)
+            src = None
+            if a_ in ("dict", "deepcopy") and len(e.args) == 1 and isinstance(e.func, ast.Name):
+                src = e.args[0]
+            elif call_name(e) in ("copy.copy", "copy.deepcopy") and len(e.args) == 1:
+                src = e.args[0]
+            elif a_ == "copy" and isinstance(e.func, ast.Attribute) and not e.args:
+                src = e.func.value
+            if src is None:
+                return None
+            sub = parts(src, depth + 1)
+            if sub is None or any(k.arg is None for k in e.keywords):
+                return None
+            return sub[0], sub[1] + [k.value for k in e.keywords]
+        return None
+
+    for c, elems in grow:
+        if elems is None:
             R.violation(r, GRAPH, "build_canonical_spec", norm(c)[:90], "canonical nodes are added in a way the analysis cannot relate to a preceding json.dumps of the node", c.lineno)
             continue
-        elem = c.args[0].id
-        # the element and the objects it is a shallow copy of
-        base = {elem}
-        for v in assigned_value(bcs, elem):
-            if isinstance(v, ast.Name):
-                base.add(v.id)
-            elif isinstance(v, ast.Call) and call_attr(v) in ("dict", "copy", "deepcopy") and (v.args or isinstance(v.func, ast.Attribute)):
-                src = v.args[0] if v.args else v.func.value
-                if isinstance(src, ast.Name):
-                    base.add(src.id)
-            elif isinstance(v, ast.Dict):
-                for k, vv in zip(v.keys, v.values):
-                    if k is None and isinstance(vv, ast.Name):
-                        base.add(vv.id)
-        dump_nodes = {nid for d in calls_in(bcs) if call_name(d) == "json.dumps" and d.args and isinstance(d.args[0], ast.Name) and d.args[0].id in base for nid in g.nodes_for(stmt_of(d))}
-        targets = set(g.nodes_for(stmt_of(c)))
-        loop = next((a for a in ancestors(c) if isinstance(a, (ast.For, ast.While))), None)
-        starts = g.nodes_for(loop) if loop is not None else [g.entry]
-        blocked_edges = {(d, "n") for d in dump_nodes}
+        for elem_expr in elems:
+            _canonical_element(R, r, bcs, g, c, elem_expr, parts(elem_expr))
 
-        def uncovered(from_nodes) -> bool:
-            seen = g.reach(list(from_nodes), blocked_edges=blocked_edges)
-            return any(t in seen for t in targets)
 
-        bad = ""
-        if not dump_nodes or uncovered(starts):
-            bad = f"`{norm(c)[:50]}` can be reached without a successful json.dumps of the node"
-        else:
-            # whatever is stored into the node after the dump must itself be safe
-            for n in walk_no_nested(bcs):
-                if isinstance(n, ast.Assign) and len(n.targets) == 1 and isinstance(n.targets[0], ast.Subscript) and dotted_name(n.targets[0].value) in base:
-                    if not _leaf_safe(bcs, n.value) and uncovered(g.nodes_for(n)) :
-                        bad = f"`{norm(n)[:60]}` stores an unsanitised value into the node after (or without) the json.dumps that vouches for it"
-                        break
-        R.check(not bad, r, GRAPH, "build_canonical_spec", f"a canonical node is json-dumped before it is appended ({norm(c)[:40]})", bad + ": canonical nodes are no longer serialised when built, so a non-JSON parameter is only discovered when the traced run hashes / writes the spec (the untraced run succeeds)", c.lineno)
+def _unpacked_values(fn: ast.AST, e: ast.Name) -> List[ast.AST]:
+    """The component bound to *e* by a tuple assignment `a, e = <tuple display>` (directly or through a local)."""
+    out: List[ast.AST] = []
+    for n in walk_no_nested(fn):
+        if isinstance(n, ast.Assign) and len(n.targets) == 1 and isinstance(n.targets[0], (ast.Tuple, ast.List)):
+            tg = n.targets[0].elts
+            idx = [i for i, t in enumerate(tg) if isinstance(t, ast.Name) and t.id == e.id]
+            if not idx or any(isinstance(t, ast.Starred) for t in tg):
+                continue
+            for form in _value_forms(fn, n.value):
+                if isinstance(form, (ast.Tuple, ast.List)) and len(form.elts) == len(tg) and not any(isinstance(x, ast.Starred) for x in form.elts):
+                    out.append(form.elts[idx[0]])
+    return out
+
+
+def _canonical_element(R: Report, r, bcs: ast.AST, g: CFG, c: ast.AST, elem_expr: ast.AST, pr) -> None:
+    """One element added to the canonical node list by the statement / call *c*: it is (a shallow copy of) an object
+    that was json-dumped on every path to *c*, and whatever was put into it after that dump is JSON-safe."""
+    if pr is None or not pr[0]:
+        R.violation(r, GRAPH, "build_canonical_spec", norm(c)[:90], "canonical nodes are added in a way the analysis cannot relate to a preceding json.dumps of the node", c.lineno)
+        return
+    base, extras = pr
+    dump_nodes = {nid for d in calls_in(bcs) if call_name(d) in ("json.dumps", "dumps") and d.args and isinstance(d.args[0], ast.Name) and d.args[0].id in base for nid in g.nodes_for(stmt_of(d))}
+    targets = set(g.nodes_for(stmt_of(c)))
+    loop = next((a for a in ancestors(c) if isinstance(a, (ast.For, ast.While))), None)
+    starts = g.nodes_for(loop) if loop is not None else [g.entry]
+    blocked_edges = {(d, "n") for d in dump_nodes}
+
+    def uncovered(from_nodes) -> bool:
+        seen = g.reach(list(from_nodes), blocked_edges=blocked_edges)
+        return any(t in seen for t in targets)
+
+    bad = ""
+    if not dump_nodes or uncovered(starts):
+        bad = f"`{norm(c)[:50]}` can be reached without a successful json.dumps of the node"
+    else:
+        # whatever is stored into the node after the dump must itself be safe
+        for n in walk_no_nested(bcs):
+            if isinstance(n, ast.Assign) and len(n.targets) == 1 and isinstance(n.targets[0], ast.Subscript) and dotted_name(n.targets[0].value) in base:
+                if not _leaf_safe(bcs, n.value) and uncovered(g.nodes_for(n)):
+                    bad = f"`{norm(n)[:60]}` stores an unsanitised value into the node after (or without) the json.dumps that vouches for it"
+                    break
+        for v in extras:
+            if not bad and not _leaf_safe(bcs, v) and uncovered(g.nodes_for(stmt_of(v))):
+                bad = f"`{norm(v)[:60]}` is put into the node next to the dumped entries, after (or without) the json.dumps that vouches for it"
+    R.check(not bad, r, GRAPH, "build_canonical_spec", f"a canonical node is json-dumped before it is appended ({norm(c)[:40]})", bad + ": canonical nodes are no longer serialised when built, so a non-JSON parameter is only discovered when the traced run hashes / writes the spec (the untraced run succeeds)", c.lineno)
 
 
 # ---------------------------------------------------------------------------------------------------------
@@ -637,15 +989,17 @@ def _flows_to_output(f: ast.AST, src: ast.Call) -> Optional[ast.AST]:
     return None
 
 
-def _volatile_producers(repo: Repo, ex: ast.AST) -> Set[str]:
-    """Methods whose results feed only the documented volatile `timing` block of a SER (found by role: the names in
-    the `timing=` argument of SER construction, the self-calls they are assigned from, and what those call on self)."""
+def _volatile_producers(repo: Repo, ex: ast.AST) -> Set[int]:
+    """Functions (ids of their defs) whose results feed only the documented volatile `timing` block of a SER, found by
+    role: the names in the `timing=` argument of SER construction, the calls they are assigned from (methods or
+    module-level functions of the orchestrator module, resolved through the call graph), and what those call."""
+    omod = repo.module(ORCH)
     names: Set[str] = set()
     for c in calls_in(ex):
         t = kwarg(c, "timing")
         if t is not None:
             names |= {x.id for x in ast.walk(t) if isinstance(x, ast.Name)}
-    meths: Set[str] = set()
+    fns: Dict[int, ast.AST] = {}
     todo = set(names)
     seen: Set[str] = set()
     while todo:
@@ -655,23 +1009,37 @@ def _volatile_producers(repo: Repo, ex: ast.AST) -> Set[str]:
         seen.add(nm)
         for n in walk_no_nested(ex):
             if isinstance(n, ast.Assign) and nm in {x for t in n.targets for x in names_stored(t)} and isinstance(n.value, ast.Call):
-                d = dotted_name(n.value.func) or ""
-                if d.startswith("self."):
-                    meths.add(d[5:])
+                hit = [t for m, t in repo.resolve_call(omod, n.value) if m.rel == ORCH and isinstance(t, FuncNode)]
+                if hit:
+                    fns.update({id(t): t for t in hit})
                     todo |= {x.id for a in n.value.args for x in ast.walk(a) if isinstance(x, ast.Name)}
-    changed = True
-    while changed:
-        changed = False
-        for m in list(meths):
-            f = repo.maybe_func(ORCH, O + m)
-            if f is None:
-                continue
-            for c in calls_in(f):
-                d = dotted_name(c.func) or ""
-                if d.startswith("self.") and d[5:] not in meths:
-                    meths.add(d[5:])
-                    changed = True
-    return meths
+    work = list(fns.values())
+    while work:
+        f = work.pop()
+        for c in calls_in(f):
+            for m, t in repo.resolve_call(omod, c):
+                if m.rel == ORCH and isinstance(t, FuncNode) and id(t) not in fns:
+                    fns[id(t)] = t
+                    work.append(t)
+    return set(fns)
+
+
+TRACE_MODEL = "semantiva/trace/model.py"
+
+
+def _driver_arg(repo: Repo, c: ast.Call, index: int) -> Optional[ast.AST]:
+    """The argument a driver-callback call binds to the callback's parameter number *index* (self not counted), by
+    position or by the name the TraceDriver interface gives that parameter."""
+    if len(c.args) > index and not any(isinstance(a, ast.Starred) for a in c.args[:index + 1]):
+        return c.args[index]
+    meth = call_attr(c)
+    if repo.has_module(TRACE_MODEL):
+        f = repo.maybe_func(TRACE_MODEL, f"TraceDriver.{meth}")
+        if f is not None:
+            pos = [a.arg for a in f.args.posonlyargs + f.args.args][1:]
+            if index < len(pos):
+                return kwarg(c, pos[index])
+    return None
 
 
 def _no_identity_in_stream(repo: Repo, R: Report, ex: ast.AST, helper_fns, drivers: Set[str]) -> None:
@@ -682,8 +1050,8 @@ def _no_identity_in_stream(repo: Repo, R: Report, ex: ast.AST, helper_fns, drive
     scan: Dict[Tuple[str, str], Tuple[ast.AST, bool]] = {}
     omod = repo.module(ORCH)
     for qn, f in omod.defs.items():
-        if isinstance(f, FuncNode) and qn.startswith(O) and qn.count(".") == 1 and qn != EXECUTE:
-            scan[(ORCH, qn)] = (f, qn[len(O):] not in volatile)
+        if isinstance(f, FuncNode) and qn != EXECUTE and ((qn.startswith(O) and qn.count(".") == 1) or "." not in qn):
+            scan[(ORCH, qn)] = (f, id(f) not in volatile)
     for rel, qn, f in helper_fns:
         if rel != ORCH:
             scan.setdefault((rel, qn), (f, True))
@@ -698,8 +1066,11 @@ def _no_identity_in_stream(repo: Repo, R: Report, ex: ast.AST, helper_fns, drive
                 scan.setdefault((JSONL, qn), (f, False))  # timestamps / seq / file names are the driver's volatile fields
     for (rel, qn), (f, clock_too) in sorted(scan.items()):
         bad = None
+        fmod = repo.module(rel)
         for c in [c for c in ast.walk(f) if isinstance(c, ast.Call)]:
             kind = _source_kind(c)
+            if kind is None and clock_too and rel == ORCH and any(id(t) in volatile for _m, t in repo.resolve_call(fmod, c)):
+                kind = "clock"  # a producer of the volatile timing block called from code that builds stable fields
             if kind is None or (kind == "clock" and not clock_too):
                 continue
             sink = _flows_to_output(f, c)
@@ -714,8 +1085,10 @@ def _no_identity_in_stream(repo: Repo, R: Report, ex: ast.AST, helper_fns, drive
     # execute itself: the only clock/uuid source is the run id handed to on_pipeline_start
     run_id_names: Set[str] = set()
     for c in calls_in(ex):
-        if _orch.is_driver_call(c, drivers, "on_pipeline_start") and len(c.args) >= 2 and isinstance(c.args[1], ast.Name):
-            run_id_names.add(c.args[1].id)
+        if _orch.is_driver_call(c, drivers, "on_pipeline_start"):
+            a = _driver_arg(repo, c, 1)
+            if isinstance(a, ast.Name):
+                run_id_names.add(a.id)
     for c in [c for c in ast.walk(ex) if isinstance(c, ast.Call)]:
         kind = _source_kind(c)
         if kind is None:
